@@ -138,6 +138,73 @@ theorem key_line (k v : Str) (hk : keyOK k = true) (hv : valOK v = true) :
       exact h2
 
 
+/-- a word (only `\w` characters, not empty) is not changed by `str.strip()` -/
+theorem lstrip_word (k : Str) (hall : k.all isWord = true) : lstrip k = k := by
+  cases k with
+  | nil => rfl
+  | cons a as =>
+    simp at hall
+    simp [lstrip, isWord_not_space a hall.1]
+
+theorem strip_word (k : Str) (hall : k.all isWord = true) : strip k = k := by
+  have hr : k.reverse.all isWord = true := by simpa using hall
+  simp [strip, rstrip, lstrip_word k hall, lstrip_word k.reverse hr]
+
+theorem takeWhile_colon (k r : Str) (hall : k.all isWord = true) :
+    (k ++ ':' :: r).takeWhile (· != ':') = k := by
+  induction k with
+  | nil => simp [List.takeWhile]
+  | cons c cs ih =>
+    simp at hall
+    have hc : (c != ':') = true := by
+      cases hce : c == ':' with
+      | false => simp [bne, hce]
+      | true => simp at hce; subst hce; exact absurd hall.1 (by decide)
+    simp [List.takeWhile, hc]
+    exact ih (by simpa using hall.2)
+
+/-- a key line `Key: value`, the key written in any case -/
+theorem key_line_any (k v : Str) (hne : k ≠ []) (hall : k.all isWord = true) (hv : valOK v = true) :
+    isBlank (k ++ ':' :: ' ' :: v) = false ∧ metaEndRe (k ++ ':' :: ' ' :: v) = false ∧
+      beginRe (k ++ ':' :: ' ' :: v) = false ∧
+      ∃ v', metaRe (k ++ ':' :: ' ' :: v) = some (k, v') ∧ strip v' = v := by
+  obtain ⟨hs, c, cs, rfl, hc⟩ := strip_of_valOK v hv
+  cases k with
+  | nil => exact absurd rfl hne
+  | cons a as =>
+    have ha : isWord a = true := by simp at hall; exact hall.1
+    have hsp := isWord_not_space a ha
+    have hne' : (a == ' ') = false := by
+      cases hce : a == ' ' with
+      | false => rfl
+      | true => simp at hce; subst hce; simp [isSpace] at hsp
+    have hd : (a == '-') = false := by
+      cases hce : a == '-' with
+      | false => rfl
+      | true => simp at hce; subst hce; revert ha; decide
+    have hdot : (a == '.') = false := by
+      cases hce : a == '.' with
+      | false => rfl
+      | true => simp at hce; subst hce; revert ha; decide
+    obtain ⟨t1, t2⟩ := takeWhile_key (a :: as) (' ' :: c :: cs) hall
+    refine ⟨by simp [isBlank, hsp], by simp [metaEndRe, startsWith, hd, hdot], by simp [beginRe, startsWith, hd], ?_⟩
+    refine ⟨lstrip (' ' :: c :: cs), ?_, ?_⟩
+    · have tw : ((a :: as) ++ ':' :: ' ' :: c :: cs).takeWhile (· == ' ') = [] := by
+        simp [List.takeWhile, hne']
+      have dw : ((a :: as) ++ ':' :: ' ' :: c :: cs).dropWhile (· == ' ') = (a :: as) ++ ':' :: ' ' :: c :: cs := by
+        simp [List.dropWhile, hne']
+      unfold metaRe
+      simp only [tw, dw, t1, t2]
+      simp
+    · have h0 : isSpace ' ' = true := by decide
+      have : lstrip (' ' :: c :: cs) = c :: cs := by simp [lstrip, h0, hc]
+      rw [this]
+      have h2 : strip (c :: cs) = c :: cs := hs
+      have : strip (c :: cs) = rstrip (lstrip (c :: cs)) := rfl
+      simp [strip, lstrip, hc] at h2 ⊢
+      exact h2
+
+
 theorem metaLoop_cont (vs' : List Str) (hv : vs'.all valOK = true) (rest : List Str) (k : Str)
     (md : MetaDict) (vs0 : List Str) (hk : k ∉ md.map (·.1)) :
     metaLoop (vs'.map (fun w => four ++ w) ++ rest) (some k) (md ++ [(k, vs0)])
